@@ -68,6 +68,8 @@ pub enum GOp {
     Swap,
     /// x -> pair(x, x), k times
     Bomb(u8),
+    /// x -> pair(take x, drop x), k times: squares the SOURCE type each time
+    SquareSrc(u8),
     /// repeat a unary op n times (deep nesting)
     Rep(Box<GOp>, u32),
     /// comp(top, top) n times: t := comp(t, iden-like) chains
@@ -227,6 +229,16 @@ fn symbolic(recipe: &Recipe) -> Symbolic {
                 if let Some(mut x) = stack.pop() {
                     for _ in 0..*k {
                         x = add(nodes, EOp::Pair, vec![x, x]);
+                    }
+                    stack.push(x)
+                }
+            }
+            GOp::SquareSrc(k) => {
+                if let Some(mut x) = stack.pop() {
+                    for _ in 0..*k {
+                        let t = add(nodes, EOp::Take, vec![x]);
+                        let d = add(nodes, EOp::Drop, vec![x]);
+                        x = add(nodes, EOp::Pair, vec![t, d]);
                     }
                     stack.push(x)
                 }
@@ -413,6 +425,49 @@ pub fn build(recipe: &Recipe) -> Option<Built> {
         skipped: repaired,
         n_witness: tys.len(),
     })
+}
+
+/// Commitment-time encoding of a recipe (no witness values needed): used for programs whose
+/// witness types are too large to populate, e.g. source-type bombs. The program bytes are then
+/// offered to the redemption-time decoder with an arbitrary witness stream.
+pub fn build_commit_bytes(recipe: &Recipe) -> Option<Vec<u8>> {
+    let mut sym = symbolic(recipe);
+    let mut repaired = 0;
+    loop {
+        let r: Result<Vec<u8>, BuildError> = types::Context::with_context(|ctx| {
+            let (root, _) = construct(&ctx, recipe.family, &sym, &[], recipe.wit_seed)?;
+            let commit: Arc<CommitNode> = root.finalize_types().map_err(|_| BuildError::Final)?;
+            Ok(commit.to_vec_without_witness())
+        });
+        match r {
+            Ok(b) => return Some(b),
+            Err(BuildError::Op(i)) => {
+                if sym.nodes[i].kids.is_empty() || repaired > 40 {
+                    return None;
+                }
+                sym.nodes[i].op = EOp::Alias;
+                sym.nodes[i].kids.truncate(1);
+                repaired += 1;
+            }
+            Err(BuildError::Final) => return None,
+        }
+    }
+}
+
+/// Source-type bombs: the witness that feeds the expression gets an astronomically wide type.
+pub fn source_bomb_recipe(r: &mut Rng, family: Family) -> Recipe {
+    // The leaf is a jet (non-empty closed source type, shared at commitment time) or iden. A
+    // witness leaf would not do: commitment-time encodings never share witness nodes, so the
+    // encoding of take(x)/drop(x) over it unfolds into 2^k nodes — an exponentially large
+    // *input*, which is not the decoder's problem.
+    let leaf = if r.chance(1, 5) { GOp::Iden } else { GOp::Jet(r.usize_below(family.n_jets())) };
+    let ops = vec![leaf, GOp::SquareSrc(r.range(8, 70) as u8)];
+    Recipe {
+        family,
+        ops,
+        close: Close::Early,
+        wit_seed: r.next_u64(),
+    }
 }
 
 /// Random recipe. `size` ~ number of ops.
